@@ -413,7 +413,9 @@ func runCase(c driver.Case) driver.Result {
 		ctx, cancel := context.WithCancel(context.Background())
 		defer cancel()
 		x := driveRec(func(o ro.Observable[int]) func(*rec.Rec) ro.Subscription {
-			return func(r *rec.Rec) ro.Subscription { return ro.DelayEach[int](d)(o).SubscribeWithContext(ctx, rec.Raw[int](r)) }
+			return func(r *rec.Rec) ro.Subscription {
+				return ro.DelayEach[int](d)(o).SubscribeWithContext(ctx, rec.Raw[int](r))
+			}
 		}, gs, end, nil)
 		if rng.Intn(2) == 0 {
 			go func(after time.Duration) { time.Sleep(after); cancel() }(time.Duration(rng.Int63n(int64(time.Duration(n) * d))))
